@@ -125,6 +125,17 @@ Definition step_okb (prev : list mol) (o : op) (x : outcome) (h : list mol) : bo
          | Some m, Some n, Some m' => merge_okb m n m'
          | _, _, _ => false
          end
+     | Merge i j, Unsupported => true
+     | Merge i j, x' =>
+         (* a merge of two existing molecules may only be refused for different nrexcl (an empty molecule without
+            nrexcl adopts the other's), and then with a ValueError: never with a KeyError *)
+         match nth_error prev i, nth_error prev j with
+         | Some m, Some n =>
+             negb (match nrexcl m, nodes m with None, [] => true | _, _ => false end)
+             && negb (opt_eqbZ (nrexcl m) (nrexcl n))
+             && match x' with ValueErr => true | _ => false end
+         | _, _ => true
+         end
      | _, _ => true
      end.
 
